@@ -143,6 +143,73 @@ def random_history(ctx, srv, g, n, label='rand', dbs=(0,)):
     return ok
 
 
+LOOSE = [b'+%d', b'00%d', b'-0']          # written forms Redis' string2ll refuses; %d is filled with the intended value
+
+
+def loose(n, rnd):
+    """A non-canonical decimal spelling of the integer n ('+5', '007', '-0' for 0, '-007')."""
+    if n == 0:
+        return rnd.choice([b'-0', b'00', b'+0'])
+    if n < 0:
+        return b'-00%d' % -n
+    return rnd.choice([b'+%d' % n, b'00%d' % n])
+
+
+def lenient_int_history(ctx, srv, family, label='lenient'):
+    """Directed history: every integer position of the family's commands (and the stored values the INCR family reads)
+    written in a spelling the reference refuses ('+5', '007', '-0').  Reference: error reply, nothing changes."""
+    rnd = ctx.rnd
+    L = lambda n: loose(n, rnd)
+    B = lambda *a: [x if isinstance(x, bytes) else str(x).encode() for x in a]
+    cmds = []
+    if family == 'strings':
+        cmds += [B('SET', 'n', '10'), B('INCRBY', 'n', L(5)), B('GET', 'n'), B('DECRBY', 'n', L(3)), B('GET', 'n'),
+                 B('INCRBY', 'n', L(0)), B('INCRBY', 'n', L(-7)), B('GET', 'n'),
+                 B('SET', 'z', L(7)), B('INCR', 'z'), B('GET', 'z'), B('SET', 'z', L(0)), B('DECR', 'z'), B('GET', 'z'),
+                 B('SET', 'z', L(-4)), B('INCRBY', 'z', '1'), B('GET', 'z'), B('SET', 'z', L(9)), B('DECRBY', 'z', L(2)), B('GET', 'z'),
+                 B('SET', 's', 'abcdef'), B('GETRANGE', 's', L(1), '3'), B('GETRANGE', 's', '0', L(-2)), B('GETRANGE', 's', L(0), L(2)),
+                 B('SETRANGE', 's', L(1), 'ZZ'), B('GET', 's'), B('SETRANGE', 'new', L(0), 'ab'), B('EXISTS', 'new'),
+                 B('SET', 'e', 'v', 'EX', L(100)), B('TTL', 'e'), B('SET', 'e2', 'v', 'PX', L(100000)), B('TTL', 'e2'), B('EXISTS', 'e2'),
+                 B('SETEX', 'e3', L(100), 'v'), B('EXISTS', 'e3'), B('PSETEX', 'e4', L(100000), 'v'), B('EXISTS', 'e4'),
+                 B('SET', 'p', 'v'), B('EXPIRE', 'p', L(100)), B('TTL', 'p'), B('PEXPIRE', 'p', L(100000)), B('TTL', 'p'),
+                 B('EXPIRE', 'p', L(0)), B('EXISTS', 'p'),
+                 B('SELECT', L(1)), B('SET', 'where', 'x'), B('SELECT', '0'), B('EXISTS', 'where'), B('SELECT', '1'), B('EXISTS', 'where'),
+                 B('SELECT', '0')]
+    elif family == 'colls':
+        cmds += [B('RPUSH', 'l', 'a', 'b', 'c', 'b', 'a'), B('LRANGE', 'l', L(0), '-1'), B('LRANGE', 'l', '0', L(-2)), B('LINDEX', 'l', L(1)),
+                 B('LINDEX', 'l', L(-1)), B('LSET', 'l', L(1), 'X'), B('LRANGE', 'l', '0', '-1'), B('LREM', 'l', L(1), 'a'),
+                 B('LRANGE', 'l', '0', '-1'), B('LREM', 'l', L(-1), 'b'), B('LRANGE', 'l', '0', '-1'), B('LREM', 'l', L(0), 'c'),
+                 B('LRANGE', 'l', '0', '-1'), B('RPUSH', 'l', 'p', 'q', 'r'), B('LTRIM', 'l', L(1), '-1'), B('LRANGE', 'l', '0', '-1'),
+                 B('LTRIM', 'l', '0', L(-2)), B('LRANGE', 'l', '0', '-1'),
+                 B('SADD', 's', 'a', 'b', 'c', 'd'), B('SRANDMEMBER', 's', L(2)), B('SRANDMEMBER', 's', L(-2)), B('SRANDMEMBER', 's', L(0)),
+                 B('SPOP', 's', L(1)), B('SCARD', 's'), B('SPOP', 's', L(0)), B('SCARD', 's'),
+                 B('HSET', 'h', 'f', '10', 'g', L(7)), B('HINCRBY', 'h', 'f', L(5)), B('HGET', 'h', 'f'), B('HINCRBY', 'h', 'f', L(-3)),
+                 B('HGET', 'h', 'f'), B('HINCRBY', 'h', 'g', '1'), B('HGET', 'h', 'g'), B('HINCRBY', 'h', 'g', L(0)), B('HGET', 'h', 'g'),
+                 B('HINCRBY', 'h', 'new', L(4)), B('HGET', 'h', 'new')]
+    elif family == 'zsets':
+        cmds += [B('ZADD', 'z', '1', 'a', '2', 'b', '3', 'c', '4', 'd'), B('ZRANGE', 'z', L(0), '-1'), B('ZRANGE', 'z', '0', L(-2)),
+                 B('ZREVRANGE', 'z', L(1), L(2)), B('ZRANGE', 'z', L(0), L(1), 'WITHSCORES'),
+                 B('ZPOPMIN', 'z', L(1)), B('ZCARD', 'z'), B('ZPOPMAX', 'z', L(2)), B('ZCARD', 'z'), B('ZPOPMIN', 'z', L(0)), B('ZCARD', 'z')]
+    s = fresh_session(ctx, srv, label)
+    try:
+        cid = s.open()
+        s.cmd(cid, [b'FLUSHALL'])
+        for a in cmds:
+            cid = ensure_conn(s, cid)
+            s.cmd(cid, a)
+        cid = ensure_conn(s, cid)
+        dump_db(s, cid)
+        s.cmd(cid, [b'SELECT', b'1'])
+        dump_db(s, cid)
+    except ServerDied:
+        pass
+    s.close_all()
+    ok = ctx.validate(s.trace, label=label)
+    if not srv.alive():
+        srv.restart()
+    return ok
+
+
 def replay_file(ctx, path):
     """Re-run a stored violation (its recorded trace is the scenario) on the current tree."""
     info = json.load(open(path)) if path.endswith('.json') else {'trace': path}
@@ -298,14 +365,32 @@ def replay_conn_paths(ctx, srv, paths, label='gen', password=None, header=None, 
     return ok
 
 
-def txn_script(rnd, ci, nsteps, accounts, shared):
+def txn_script(rnd, ci, nsteps, accounts, shared, evalheavy=False):
     """Steps for one client of the concurrent C07/C08 workload."""
     steps = []
     def acct():
         return rnd.choice(accounts)
+    import luadsl as L
+    def eval_step(prog, keys, args):
+        src = L.render(prog)
+        return ('eval', [b'EVAL', src, str(len(keys)).encode()] + keys + args,
+                {'prog': L.clean(prog), 'sha': list(L.sha1hex(src))})
     for _ in range(nsteps):
-        c = rnd.randrange(12)
-        if c <= 2:      # transfer inside MULTI/EXEC, sent as separate requests
+        c = rnd.randrange(14)
+        if evalheavy and rnd.random() < 0.5:
+            c = rnd.choice([12, 13])
+        if c == 12:     # the transfer as a script: both halves and the read-back are one step for everybody else
+            a, b = acct(), acct()
+            x = str(rnd.randrange(1, 9)).encode()
+            steps.append(eval_step([L.call([L.arg_lit(b'DECRBY'), L.arg_key(1), L.arg_arg(1)]),
+                                    L.call([L.arg_lit(b'INCRBY'), L.arg_key(2), L.arg_arg(1)]),
+                                    L.call([L.arg_lit(b'MGET'), L.arg_key(1), L.arg_key(2)], ret=1)], [a, b], [x]))
+        elif c == 13:   # a script whose second call fails: the first effect stays, the rest does not run
+            a = acct()
+            steps.append(eval_step([L.call([L.arg_lit(b'INCR'), L.arg_key(1)]),
+                                    L.call([L.arg_lit(b'INCRBY'), L.arg_key(2), L.arg_lit(b'notanint')], pcall=rnd.random() < 0.5),
+                                    L.call([L.arg_lit(b'INCR'), L.arg_key(2)], ret=1)], [a, shared], []))
+        elif c <= 2:      # transfer inside MULTI/EXEC, sent as separate requests
             a, b = acct(), acct()
             x = str(rnd.randrange(1, 9)).encode()
             steps += [('cmd', [b'MULTI']), ('cmd', [b'DECRBY', a, x]), ('cmd', [b'INCRBY', b, x]), ('cmd', [b'EXEC'])]
